@@ -694,7 +694,8 @@ func (X *Exec) applyContract(fr *Frame, st *State, fs *FuncSpec, callee *ssa.Fun
 		return X.freshResults(st, cc, "dead")
 	}
 	old := st.Clone()
-	if fs.ModAll {
+	if fs.ModAll || (len(fs.Modifies) == 0 && !fs.Pure && !fs.Trusted && callee != nil && callee.Blocks != nil) {
+		// a contract of a function of the repository that does not list what it modifies promises no frame
 		X.havocAll(st, "mod")
 	} else {
 		X.havocAlloc(st, "call") // any call may allocate
@@ -856,6 +857,13 @@ func (X *Exec) havocLoc(c *SpecCtx, st *State, loc *SExpr) {
 					return
 				}
 			}
+		case "allelems":
+			// allelems(T): the elements of every []T (appends in place write into spare capacity of arrays that
+			// cannot all be named)
+			T := c.lookupType(exprText(loc.Args[0]))
+			n, srt := X.E.ElemHeap(T)
+			X.setHeap(st, n, srt, ts.Fresh("mod.allelems", srt))
+			return
 		case "maxalloc":
 			X.setHeap(st, "GM|maxalloc", SInt, ts.Fresh("mod.maxalloc", SInt))
 			return
@@ -1034,6 +1042,12 @@ func (X *Exec) execInvoke(fr *Frame, ins ssa.Instruction, cc *ssa.CallCommon, st
 			}
 		}
 	}
+	// 1.5 iterator rule for Set.Each(closure) when the enclosing function's contract has `each N invariant` clauses
+	if cc.Method.Name() == "Each" && len(args) == 1 && strings.HasPrefix(typeKey(cc.Value.Type()), "github.com/deckarep/golang-set/v2.Set") {
+		if r, ok := X.eachRule(fr, ins, cc, st, recv, args[0]); ok {
+			return r
+		}
+	}
 	// 2. contract on the interface method
 	recvT := cc.Value.Type()
 	tn := typeKey(recvT)
@@ -1184,4 +1198,106 @@ func isHandlerType(t types.Type) bool {
 		return false
 	}
 	return strings.HasSuffix(n.Obj().Name(), "Func") || strings.HasSuffix(n.Obj().Name(), "Callback")
+}
+
+
+// eachRule: s.Each(f) with a known closure f, specified by `each N invariant I` clauses (visited(x) = x was handed to
+// f already). Obligations: I holds with nothing visited; for an arbitrary element x of s not yet visited, running f(x)
+// from any state satisfying I re-establishes I with x visited, and f returns false (no early stop). Afterwards I holds
+// with exactly the members of s (as they were when Each was called) visited. Everything the callback may touch is
+// havoced, so I must carry what is needed.
+func (X *Exec) eachRule(fr *Frame, ins ssa.Instruction, cc *ssa.CallCommon, st *State, recv *Val, fv *Val) (*Val, bool) {
+	fs := X.specOf(fr)
+	if fs == nil {
+		return nil, false
+	}
+	// ordinal of this Each call in the function
+	var eachs []ssa.Instruction
+	for _, b := range fr.Fn.Blocks {
+		for _, in := range b.Instrs {
+			if cv, ok := in.(ssa.CallInstruction); ok {
+				c := cv.Common()
+				if c.IsInvoke() && c.Method.Name() == "Each" {
+					eachs = append(eachs, in)
+				}
+			}
+		}
+	}
+	sort.Slice(eachs, func(a, b int) bool { return eachs[a].Pos() < eachs[b].Pos() })
+	ord := -1
+	for k, in := range eachs {
+		if in == ins {
+			ord = k
+		}
+	}
+	ls := fs.Loops[-1-ord]
+	if ord < 0 || ls == nil || len(ls.Invariants) == 0 {
+		return nil, false
+	}
+	var clo *Closure
+	if fv.Clo != nil {
+		clo = fv.Clo
+	} else if fv.T != nil {
+		clo = st.Clos[fv.T]
+	}
+	if clo == nil || clo.Fn == nil || clo.Fn.Blocks == nil || len(clo.Fn.Params) != 1 {
+		return nil, false
+	}
+	ts := X.E.TS
+	pos := ins.Pos()
+	gm := X.E.Specs.GhostMaps["smem"]
+	if gm == nil {
+		return nil, false
+	}
+	vsort := ArraySort(SStr, SBool)
+	memSort := ArraySort(SIface, vsort)
+	memAtEntry := ts.Select(X.heap(st, "GM|smem", memSort), recv.T)
+	fnKey := X.E.P.Keys[fr.Fn]
+	evalInvs := func(s *State, V *Term) []*Term {
+		X.eachVisited = V
+		defer func() { X.eachVisited = nil }()
+		var out []*Term
+		for _, inv := range ls.Invariants {
+			out = append(out, X.evalClause(fr, s, inv, nil))
+		}
+		return out
+	}
+	// entry: nothing visited
+	for i, t := range evalInvs(st, ts.ConstArray(vsort, ts.False())) {
+		inv := ls.Invariants[i]
+		X.oblige(st, "inv.entry", inv.Label, fmt.Sprintf("each %d of %s invariant #%d holds before the first callback: %s", ord, fnKey, i, inv.Src), pos, t)
+	}
+	xb := ts.BoundVar("ex", SStr)
+	// arbitrary iteration
+	h := st.Clone()
+	X.havocAll(h, "each")
+	V := ts.Fresh("each.visited", vsort)
+	h.assume(ts, ts.Forall([]*Term{xb}, ts.Implies(ts.Select(V, xb), ts.Select(memAtEntry, xb)), []*Term{ts.Select(V, xb)}))
+	for _, t := range evalInvs(h, V) {
+		h.assume(ts, t)
+	}
+	x := ts.Fresh("each.x", SStr)
+	h.assume(ts, ts.And(ts.Select(memAtEntry, x), ts.Not(ts.Select(V, x))))
+	if !X.canInline(clo.Fn) {
+		return nil, false
+	}
+	res := X.inlineCall(fr, h, clo.Fn, clo.Bindings, []*Val{{T: x, GT: clo.Fn.Params[0].Type()}}, pos)
+	if !h.Dead {
+		if res != nil && res.T != nil {
+			X.oblige(h, "inv.step", "", fmt.Sprintf("each %d of %s: the callback returns false (no early stop)", ord, fnKey), pos, ts.Not(res.T))
+		}
+		for i, t := range evalInvs(h, ts.Store(V, x, ts.True())) {
+			inv := ls.Invariants[i]
+			X.oblige(h, "inv.step", inv.Label, fmt.Sprintf("each %d of %s invariant #%d is preserved by one callback: %s", ord, fnKey, i, inv.Src), pos, t)
+		}
+	}
+	// after the iteration: exactly the members (as they were at the call) have been visited
+	X.havocAll(st, "each.exit")
+	Vf := ts.Fresh("each.all", vsort)
+	st.assume(ts, ts.Forall([]*Term{xb}, ts.Eq(ts.Select(Vf, xb), ts.Select(memAtEntry, xb)), []*Term{ts.Select(Vf, xb)}))
+	for _, t := range evalInvs(st, Vf) {
+		st.assume(ts, t)
+	}
+	X.UsedTrusted["iterator rule for mapset Set.Each (calls the callback once for every member, in some order, until it returns true)"]++
+	return nil, true
 }
